@@ -339,6 +339,29 @@ Proof.
   eapply safe_scan; [reflexivity| |exact HF]. intros done'. cbn. apply HT.
 Qed.
 
+(** the two flip_and_wait of synchronize *)
+Lemma safe_flips2 t fuel i l (Q : bool -> L -> Prop) :
+  l_w l = WHeld0 i ->
+  (forall gph done, Q true (set_w l (WPhase i true gph (PScan done [] L0)))) -> (forall l', Q false l') ->
+  safe t (flips_and_wait 2 fuel) l Q.
+Proof.
+  intros Hw HT HF. cbn [flips_and_wait]. cbv beta iota; apply safe_bind.
+  apply safe_flip1 with (i := i); [exact Hw| |intros l'; cbv beta iota; apply HF].
+  intros gph done. cbv beta iota; apply safe_bind.
+  eapply safe_flip2; [reflexivity| |intros l'; cbv beta iota; apply HF].
+  intros gph' done'. cbn. apply HT.
+Qed.
+
+Lemma safe_unlock t i gph done l (Q : unit -> L -> Prop) :
+  l_w l = WPhase i true gph (PScan done [] L0) -> Q tt (set_w l (WFin i)) -> safe t unlock l Q.
+Proof.
+  intros Hw HQ. unfold unlock. apply safe_act_upd. intros g a tr HInv Hv. unfold a_lock_st. cbn [fst snd].
+  exists (set_w l (WFin i)). split.
+  - tg. replace (set_w l (WFin i)) with (set_w (a t) (WFin i)) by (rewrite Hv; reflexivity).
+    eapply step_unlock; eauto. rewrite Hv; exact Hw.
+  - cbn. exact HQ.
+Qed.
+
 (** general_instant::synchronize with the two flips of the real code *)
 Lemma safe_synchronize t fuel i l (Q : bool -> L -> Prop) :
   l_w l = WStart i -> Q true (set_w l (WFin i)) -> (forall l', Q false l') ->
@@ -370,13 +393,13 @@ Proof.
   cbv beta iota; apply safe_emit_upd. intros g a tr HInv Hv.
   exists (set_w (set_sm l (Some (List.length tr))) (WStart (List.length tr))). split.
   - tg. eapply step_ev_begin; eauto; try reflexivity.
-    + rewrite Hv; exact H5.
+    + rewrite Hv, H5; intros [].
     + rewrite Hv; reflexivity.
     + left. rewrite Hv. repeat split.
   - cbv beta iota; apply safe_bind. eapply safe_synchronize; [reflexivity| |intros l'; cbv beta iota; apply HF].
     cbv beta iota; apply safe_emit_upd. intros g1 a1 tr1 HInv1 Hv1.
     exists (set_w (a1 t) WIdle). split.
-    + tg. eapply step_ev_sync_end; eauto; rewrite Hv1; reflexivity.
+    + tg. eapply step_ev_sync_end with (i := List.length tr) (i' := List.length tr); eauto; rewrite Hv1; reflexivity.
     + cbn. apply HT. rewrite Hv1. repeat split; cbn; auto.
 Qed.
 
@@ -388,7 +411,7 @@ Proof.
   cbv beta iota; apply safe_emit_upd. intros g a tr HInv Hv.
   exists (set_w (set_rm l (Some (List.length tr, p))) (WStart (List.length tr))). split.
   - tg. eapply step_ev_begin; eauto; try reflexivity.
-    + rewrite Hv; exact H5.
+    + rewrite Hv, H5; intros [].
     + rewrite Hv; reflexivity.
     + right. rewrite Hv. split; [reflexivity|]. split; [reflexivity|]. exists p. split; [|reflexivity].
       unfold is_retire, cli_is. cbn. apply Z.eqb_refl.
